@@ -80,7 +80,7 @@ static struct {
     struct ubuf *h[MAXT][MAXH];
     int nh[MAXT];
     int outstanding;
-    int area_allocs, area_frees;
+    int area_allocs, area_frees; int w_dead;
     bool prelude; int prelude_allocs, prelude_frees;     /* areas of the buffers made and freed before the shared area exists */
     int in_free[MAXT], in_dup[MAXT];
     bool free_overlap, dup_free_overlap, cas_retry;
@@ -97,7 +97,7 @@ static void fail_inside(const char *key, const char *msg, int a)
 }
 
 /* ---- umem wrapper: sees the area come and go */
-static void wrap_rc_cb(struct urefcount *rc) { (void)rc; }
+static void wrap_rc_cb(struct urefcount *rc);
 
 static bool wrap_alloc(struct umem_mgr *mgr, struct umem *umem, size_t size)
 {
@@ -129,6 +129,15 @@ static void wrap_free(struct umem *umem)
         fail_inside("C09/area/freed-early", "the shared area was returned to its allocator while %d handle(s) were still outstanding", cx.outstanding);
     umem->mgr = w->inner;
     w->inner->umem_free(umem);
+}
+
+/* the destructor of the memory manager (it runs only when the application has let go of its own handle: early_release) */
+static void wrap_rc_cb(struct urefcount *rc)
+{
+    (void)rc;
+    cx.w_dead++;
+    if (cx.area_frees < cx.area_allocs)
+        fail_inside("C09/manager/destroyed-early", "the destructor of the memory manager ran while %d of its areas had not been returned to it", cx.area_allocs - cx.area_frees);
 }
 
 static void op_started(int i)
@@ -204,6 +213,7 @@ static void worker(void *arg)
     if (p->early_release && t == p->nthreads - 1) {
         vs_op_begin(OP_READ, 0, 0);
         ubuf_mgr_release(cx.mgr);
+        umem_mgr_release(&cx.w.mgr);        /* the buffers keep the buffer manager alive, and it the memory manager */
         vs_op_end(1);
     }
     for (int j = 0; j < p->nops[t] && !cx.fkey[0]; j++) {
@@ -273,6 +283,8 @@ static int run_case(const struct prog *prog, struct vs_config *cfg, struct vp_re
         struct ubuf_mgr *pm = ubuf_pic_mem_mgr_alloc(p->ubuf_pool, p->shared_pool, &cx.w.mgr, 1, 0, 0, 0, 0, 0, 0);
         if (pm != NULL && ubase_check(ubuf_pic_mem_mgr_add_plane(pm, "y8", 1, 1, 1))) {
             struct ubuf *pic = ubuf_pic_alloc(pm, 16, 4);
+            struct ubuf *none = pic ? ubuf_block_mem_alloc_from_pic(cx.mgr, pic, "a8") : NULL;     /* no such plane: refused, and nothing kept */
+            if (none) ubuf_free(none);
             struct ubuf *blk = pic ? ubuf_block_mem_alloc_from_pic(cx.mgr, pic, "y8") : NULL;
             if (pic) ubuf_free(pic);
             ubuf_mgr_release(pm); pm = NULL;        /* the creator lets go: the block's area descriptor keeps the manager alive */
@@ -414,7 +426,7 @@ static int run_case(const struct prog *prog, struct vs_config *cfg, struct vp_re
             ret = vp_fail(rep, "C09/area/unknown-free", "%lu free(s) of an area the allocator does not know (double free)", s->bad_free);
         else if (s->live != 0)
             ret = vp_fail(rep, "C09/area/never-freed", "%ld area(s) still allocated after every handle was freed", s->live);
-        else if (!urefcount_single(&cx.w.rc))
+        else if (p->early_release ? cx.w_dead != 1 : !urefcount_single(&cx.w.rc))
             ret = vp_fail(rep, "C09/manager/never-destroyed", "every buffer was freed and the buffer manager released by its creator, yet it still holds its memory manager: the manager's destructor never ran (a reference on the manager was taken and not given back)");
         umem_mgr_release(inner);
     }
